@@ -9,7 +9,8 @@ from flamapy.metamodels.fm_metamodel.models import FeatureModel, Feature, Constr
 
 ATTRIBUTED_FEATURE = 'AttributedFeature'
 INSTANCE = 'CP'
-CLAFER_KEYWORDS = ('abstract', 'xor', 'or', 'mux', 'not')
+CLAFER_KEYWORDS = ('abstract', 'xor', 'or', 'mux', 'not',
+                   'true', 'false', 'integer', 'double', 'string', 'boolean')
 
 
 class ClaferAttributeType(Enum):
